@@ -744,14 +744,18 @@ class _Simu(_IObserver, _params.Updatable, ABC):
             coord_e_pg = groupElem.Get_GaussCoordinates_e_pg(matrixType)
             wJ_e_pg = groupElem.Get_weightedJacobian_e_pg(matrixType)
             rho_e_pg = FeArray.broadcast(self.rho, *wJ_e_pg.shape[:2])
-            contrib = (rho_e_pg * wJ_e_pg * coord_e_pg / mass).sum()
+            contrib = np.asarray(
+                (rho_e_pg * wJ_e_pg * coord_e_pg / mass).sum(axis=(0, 1))
+            )
             if self.dim == 2:
                 contrib *= self.model.thickness
             center += contrib
 
         if not isinstance(self.rho, np.ndarray):
-            diff = np.linalg.norm(center - self.mesh.center) / np.linalg.norm(center)
-            assert diff <= 1e-12
+            coord = self.mesh.coord
+            size = np.linalg.norm(coord.max(axis=0) - coord.min(axis=0))
+            diff = np.linalg.norm(center - self.mesh.center)
+            assert diff <= 1e-12 * max(size, np.linalg.norm(center))
 
         return center
 
